@@ -85,7 +85,30 @@ def reallocate_unphased(rng, hint):
             "blocks_edges": be if B else {"shape": [0, 2], "data": []}}
 
 
-GENS = {"reallocate_unphased": reallocate_unphased, "constrain_ages": constrain_ages, "damp": damp, "rescale": rescale}
+def piecewise_point(rng, hint):
+    K = int(rng.integers(1, 6))
+    ob = np.concatenate([[0.0], np.cumsum(rng.random(K - 1) * 10 ** rng.integers(-2, 3) + 1e-6)])
+    rb = np.concatenate([[0.0], np.cumsum(rng.random(K - 1) * 10 ** rng.integers(-2, 3) + 1e-6)])
+    n = int(rng.integers(0, 8))
+    pe = rng.random(n) * (ob[-1] * 1.5 + 1.0)
+    if n and rng.random() < 0.5:
+        pe[0] = 0.0
+    if n > 1 and K > 1 and rng.random() < 0.5:
+        pe[1] = ob[int(rng.integers(0, K))]
+    fixed = rng.random(n) < 0.3
+    return {"point_estimate": pe.tolist(), "point_fixed": fixed.tolist(), "original_breaks": ob.tolist(),
+            "rescaled_breaks": rb.tolist()}
+
+
+def fixed_changepoints(rng, hint):
+    n = int(rng.integers(1, 9))
+    c = rng.integers(0, 4, size=n).astype(float)
+    if c.sum() == 0:
+        c[int(rng.integers(0, n))] = 1.0
+    return {"counts": c.tolist(), "epochs": int(rng.integers(1, 7))}
+
+
+GENS = {"fixed_changepoints": fixed_changepoints, "piecewise_point": piecewise_point, "reallocate_unphased": reallocate_unphased, "constrain_ages": constrain_ages, "damp": damp, "rescale": rescale}
 
 
 def main():
